@@ -23,7 +23,7 @@ import time
 
 from vf.core import Check, REPO, HarnessError, lean_str
 
-MODULES = ["Model.Serde", "Proofs.Serde", "Generated.C12", "Properties.C12"]
+MODULES = ["Model.Serde", "Proofs.Serde", "Proofs.SerdeCopy", "Generated.C12", "Properties.C12"]
 THEOREMS = [
     "SqlglotModel.Properties.C12.dump_preorder",
     "SqlglotModel.Properties.C12.load_arena_dump",
@@ -32,15 +32,22 @@ THEOREMS = [
     "SqlglotModel.Properties.C12.norm_idem",
     "SqlglotModel.Properties.C12.dump_norm",
     "SqlglotModel.Properties.C12.load_dump_normal",
-    "SqlglotModel.Properties.C12.seg_head_link",
+    "SqlglotModel.Properties.C12.load_links",
+    "SqlglotModel.Properties.C12.load_no_dangling",
+    "SqlglotModel.Properties.C12.dump_json",
+    "SqlglotModel.Properties.C12.pickle_roundtrip",
+    "SqlglotModel.Properties.C12.unpickled_no_hash",
+    "SqlglotModel.Properties.C12.stale_hash_witness",
+    "SqlglotModel.Properties.C12.copy_eq",
     "SqlglotModel.Properties.C12.generated_ok",
     "SqlglotModel.Properties.C12.duplicate_keys_witness",
 ]
 
-EXPECTED_KEYS = ["INDEX", "ARG_KEY", "IS_ARRAY", "CLASS", "TYPE", "COMMENTS", "META", "VALUE", "DATA_TYPE"]
+EXPECTED_KEYS = ["INDEX", "ARG_KEY", "IS_ARRAY", "CLASS", "TYPE", "COMMENTS", "META", "VALUE", "DATA_TYPE", "META_EXPR"]
 LEAN_KEY_NAMES = {
     "INDEX": "keyIndex", "ARG_KEY": "keyArgKey", "IS_ARRAY": "keyIsArray", "CLASS": "keyClass", "TYPE": "keyType",
     "COMMENTS": "keyComments", "META": "keyMeta", "VALUE": "keyValue", "DATA_TYPE": "dataType",
+    "META_EXPR": "keyMetaExpr",
 }
 # the guards the hand model mirrors, in source order (ast.unparse of every `if`/`elif` test, `for` iterable, `while` test)
 EXPECTED_SHAPE = {
@@ -51,12 +58,17 @@ EXPECTED_SHAPE = {
         "for reversed(vs)", "if vs is not None", "if type(node) is exp.DType",
     ],
     "load": ["if not payloads", "for tail", "if CLASS in payload", "if payload.get(IS_ARRAY)"],
-    "_load": ["if class_name == DATA_TYPE", "if '.' in class_name"],
+    "_load": ["if class_name == DATA_TYPE", "if '.' in class_name", "if meta is not None"],
 }
-# accepted variants (same modelled behaviour on the model's universe): the proposed repair
-# pending_fixes/C12-meta-expr-values.diff decodes Expression-valued meta entries in _load
-SHAPE_VARIANTS = {
-    "_load": [["if class_name == DATA_TYPE", "if '.' in class_name", "if meta is not None"]],
+SHAPE_VARIANTS: dict = {}
+# the two dict comprehensions that encode / decode Expression-valued meta entries (ast.unparse of the assigned value)
+EXPECTED_ASSIGN = {
+    ("dump", "payload[META]"): "{k: {META_EXPR: dump(v)} if isinstance(v, exp.Expr) else v for k, v in node._meta.items()}",
+    ("_load", "meta"): ["payload.get(META)",
+                        "{k: load(v[META_EXPR]) if isinstance(v, dict) and META_EXPR in v else v for k, v in meta.items()}"],
+    ("_load", "expression._meta"): "meta",
+    ("_load", "expression._type"): "load(payload.get(TYPE))",
+    ("_load", "expression.comments"): "payload.get(COMMENTS)",
 }
 EXPECTED_REDUCE = "(load, (dump(self),))"
 
@@ -101,6 +113,16 @@ def translate(chk: Check) -> str:
         if got != want and got not in SHAPE_VARIANTS.get(name, []):
             shape_ok = False
             problems.append(f"serde.{name} control structure differs from the modelled one: {got}")
+    for (fname, target), want in EXPECTED_ASSIGN.items():
+        got = []
+        if fname in fns:
+            for n in ast.walk(fns[fname]):
+                if isinstance(n, ast.Assign) and len(n.targets) == 1 and ast.unparse(n.targets[0]) == target:
+                    got.append(ast.unparse(n.value))
+        wants = want if isinstance(want, list) else [want]
+        if got != wants:
+            shape_ok = False
+            problems.append(f"serde.{fname}: assignment(s) to {target} differ from the modelled ones: {got}")
     # Expression.__reduce__ must delegate to serde (pickle = load . dump)
     core = ast.parse(open(os.path.join(REPO, "sqlglot", "expressions", "core.py"), encoding="utf-8").read())
     reduce_ok = False
@@ -185,7 +207,8 @@ def conv(v, where="root", depth=0, lenient=False):
         if mt is not None:
             if type(mt) is not dict or any(type(k) is not str for k in mt):
                 raise Unrep("meta:" + type(mt).__name__, where)
-            mt = {k: conv_raw(x, f"meta[{k}]", lenient) for k, x in mt.items()}
+            mt = {k: ({"$e": conv(x, f"meta[{k}]", depth + 1, lenient)} if isinstance(x, exp.Expr)
+                      else conv_raw(x, f"meta[{k}]", lenient)) for k, x in mt.items()}
         args = []
         name = type(v).__name__
         for k, a in v.args.items():
@@ -213,7 +236,10 @@ def norm(t):
             if not v:
                 continue
             args.append([k, 1, [norm(x) for x in v]])
-    return {"c": t["c"], "t": None if t["t"] is None else norm(t["t"]), "o": t["o"] or None, "m": t["m"], "a": args}
+    m = t["m"]
+    if m is not None:
+        m = {k: ({"$e": norm(v["$e"])} if isinstance(v, dict) and "$e" in v else v) for k, v in m.items()}
+    return {"c": t["c"], "t": None if t["t"] is None else norm(t["t"]), "o": t["o"] or None, "m": m, "a": args}
 
 
 def build(t):
@@ -238,7 +264,8 @@ def build(t):
     if t["t"] is not None:
         n._type = build(t["t"])
     n.comments = None if t["o"] is None else list(t["o"])
-    n._meta = None if t["m"] is None else _copy.deepcopy(t["m"])
+    n._meta = None if t["m"] is None else {
+        k: (build(v["$e"]) if isinstance(v, dict) and "$e" in v else _copy.deepcopy(v)) for k, v in t["m"].items()}
     return n
 
 
@@ -459,7 +486,7 @@ def leaf(rng, exp):
     return exp.Paren(this=exp.Literal(this="1", is_string=False))
 
 
-def rand_meta(rng):
+def rand_meta(rng, exp=None):
     r = rng.random()
     if r < 0.55:
         return None
@@ -468,6 +495,14 @@ def rand_meta(rng):
     m = {}
     for k in rng.sample(["line", "col", "start", "end", "k", "flag", "nonnull", "s", "l"], rng.randint(1, 3)):
         m[k] = rng.choice([0, 1, 17, True, False, "v", "", None, [1, "a"], -3])
+    if exp is not None and rng.random() < 0.3:
+        # an Expression-valued entry (annotate_types stores a DataType under "query_type")
+        v = rng.choice([exp.DataType.build("STRUCT<a INT, b TEXT>"), exp.DataType(this=exp.DType.INT, nested=False, kind=None),
+                        exp.Identifier(this="m", quoted=False), exp.Tuple(expressions=[exp.Null(), exp.Star()])])
+        if rng.random() < 0.3:
+            v.comments = ["in meta"]
+            v._meta = {"deep": 1}
+        m[rng.choice(["query_type", "e"])] = v
     return m
 
 
@@ -533,7 +568,7 @@ def arg_value(rng, exp, kind, classes, depth):
 
 def decorate(rng, exp, n):
     n.comments = rand_comments(rng)
-    n._meta = rand_meta(rng)
+    n._meta = rand_meta(rng, exp)
     if not isinstance(n, exp.DataType):
         n._type = rand_type(rng, exp)
     return n
@@ -701,6 +736,33 @@ def real_load_outcome(serde, payloads):
         return None
 
 
+def arena_view(root):
+    """the rebuilt object graph in `nodes` order (= pre-order incl. scalars): per cell "s" or
+    ["n", parent index, arg_key, index, _hash is None]"""
+    _, exp, _ = sg()
+    cells, ids = [], {}
+    stack = [root]
+    while stack:
+        x = stack.pop()
+        if isinstance(x, exp.Expr):
+            ids[id(x)] = len(cells)
+            cells.append(x)
+            kids = []
+            for v in x.args.values():
+                kids.extend(v if type(v) is list else [v])
+            stack.extend(reversed(kids))
+        else:
+            cells.append(None)
+    out = []
+    for x in cells:
+        if x is None:
+            out.append("s")
+        else:
+            p = x.parent
+            out.append(["n", None if p is None else ids.get(id(p), -1), x.arg_key, x.index, x._hash is None])
+    return out
+
+
 def correspond(chk: Check, trees: list) -> list:
     """trees: list of (origin, tree). Returns the origins/trees on which model and code differ."""
     _, exp, serde = sg()
@@ -729,6 +791,37 @@ def correspond(chk: Check, trees: list) -> list:
         lines.append(json.dumps({"op": "load", "payload": payloads, "expect": loaded}))
         meta.append((idx, "load", None))
         chk.corr_cases += 1
+        if idx % 3 == 0 and isinstance(loaded, dict):
+            try:
+                hash(t)                                  # a cached hash on the source must not travel
+            except Exception:
+                pass
+            try:
+                view = arena_view(serde.load(serde.dump(t)))
+                lines.append(json.dumps({"op": "arena", "payload": payloads, "expect": view}))
+                meta.append((idx, "load-arena", None))
+                chk.corr_cases += 1
+            except Exception:
+                chk.count("corr:arena-view-failed")
+        if idx % 3 == 1:
+            # __deepcopy__ model: the copy as a tree (exact: None / [] args kept) and its object graph (links, hashes)
+            hashed = idx % 2 == 0
+            try:
+                src = t.copy()
+                for n_ in src.walk():                      # optimizer passes leave some hashes cached: start clean
+                    n_._hash = None
+                if hashed:
+                    hash(src)                              # … or with every node's hash cached
+                cp = src.copy()
+                lines.append(json.dumps({"op": "copy", "tree": tj, "hashed": hashed, "expect": conv(cp),
+                                         "view": arena_view(cp)}))
+                meta.append((idx, "copy", None))
+                chk.corr_cases += 1
+                chk.count("copy-corr:" + ("hashed" if hashed else "unhashed"))
+            except Unrep:
+                pass
+            except Exception:
+                chk.count("corr:copy-real-side-raised")
         if idx % 4 == 0:
             for m in payload_mutations(rng, payloads, bool(getattr(t, 'is_cast', False))):
                 out = real_load_outcome(serde, m)
@@ -755,7 +848,7 @@ def correspond(chk: Check, trees: list) -> list:
                     ex["tree"] = skeleton(conv(t))
                 except Exception:
                     pass
-            chk.correspondence_broken(f"serde.{what.split('-')[0]} vs model", ex)
+            chk.correspondence_broken(("Expression.__deepcopy__" if what == "copy" else f"serde.{what.split('-')[0]}") + " vs model", ex)
             bad.append(trees[idx])
     return bad
 
@@ -976,6 +1069,9 @@ def subtrees(tj):
         out.append(x)
         if x["t"] is not None:
             rec(x["t"])
+        for mv in (x["m"] or {}).values():
+            if isinstance(mv, dict) and "$e" in mv:
+                rec(mv["$e"])
         for k, kind, v in x["a"]:
             if kind == 0:
                 rec(v)
